@@ -68,7 +68,7 @@ func genScript() *rapid.Generator[Script] {
 	return rapid.Custom(func(t *rapid.T) Script {
 		nSub := rapid.IntRange(1, 4).Draw(t, "nsub")
 		nPub := rapid.IntRange(1, 3).Draw(t, "npub")
-		sc := Script{Keys: 1, Worlds: kit.Pick(6, 8)}
+		sc := Script{Keys: 1, Worlds: kit.Pick(12, 16)}
 		if rapid.IntRange(0, 3).Draw(t, "twokeys") == 0 {
 			sc.Keys = 2
 		}
@@ -407,6 +407,9 @@ type actorState struct {
 func (w *world) unsubscribe(ai, si int, st *actorState) {
 	r := st.cur
 	st.cur = nil
+	if r.sub.IsDead() {
+		w.count("closed_by_publisher_before_unsub") // self-pruned after MaxFail timed-out sends
+	}
 	c := w.begin(ai, si, "unsub", r.key, r.id, r)
 	w.mu.Lock()
 	r.unsubEntry = c.entry
@@ -647,9 +650,6 @@ func (w *world) classify() {
 			ev["lazy_subscription"]++
 		} else {
 			ev["draining_subscription"]++
-		}
-		if r.closedAt != 0 && (r.unsubEntry == 0 || r.closedAt < r.unsubEntry) {
-			ev["closed_by_publisher"]++
 		}
 		ev["events_received"] += len(r.receipts)
 	}
